@@ -94,3 +94,11 @@ ENTRIES += [
       "            os.symlink(link_target, symlink_path)\n", 'C09-D1', 'wpull/processor/ftp.py'),
     B('symlink-handler-too-narrow', "            except OSError as error:\n                # The name comes from the listing", "            except FileExistsError as error:\n                # The name comes from the listing", 'C09-D1', 'wpull/processor/ftp.py'),
 ]
+
+FC = 'wpull/protocol/ftp/client.py'
+ENTRIES += [
+    B('regress-end-control-without-begin', "        if self._control_connection and self._control_begun:", "        if self._control_connection:", 'C09-D8', FC),
+    B('control-begun-set-too-early', "        self.event_dispatcher.notify(self.Event.begin_control, request, connection_reused=connection_reused)\n        self._control_begun = True\n",
+      "        self._control_begun = True\n        self.event_dispatcher.notify(self.Event.begin_control, request, connection_reused=connection_reused)\n", 'C09-D8', FC),
+    N('control-begun-other-spelling', "        if self._control_connection and self._control_begun:", "        if self._control_begun and self._control_connection is not None:", FC),
+]
